@@ -182,6 +182,11 @@ impl ServiceControl for ServiceController {
             "Searching for process with binary at {}",
             bin_path.to_string_lossy()
         );
+        // the kernel reports the executable of a process fully resolved: the path we look for has to be
+        // resolved too, or a data directory reached through a symlink hides the live process
+        let resolved_path = bin_path
+            .canonicalize()
+            .unwrap_or_else(|_| bin_path.to_path_buf());
         let system = System::new_all();
         for (pid, process) in system.processes() {
             // on Linux every thread of a process is listed with the executable of the process: the id
@@ -190,7 +195,7 @@ impl ServiceControl for ServiceController {
                 continue;
             }
             if let Some(path) = process.exe() {
-                if bin_path == path {
+                if resolved_path == path {
                     // There does not seem to be any easy way to get the process ID from the `Pid`
                     // type. Probably something to do with representing it in a cross-platform way.
                     trace!("Found process {bin_path:?} with PID: {pid}");
